@@ -35,17 +35,20 @@ var (
 	tyInt     = &fnType{k: "int"}
 	tyBool    = &fnType{k: "bool"}
 	tyByte    = &fnType{k: "byte"}
+	tyU64     = &fnType{k: "u64"}
 	tyUntyped = &fnType{k: "untyped"}
 	tyString  = &fnType{k: "string"}
 	tyView    = &fnType{k: "view"}
 	tyUnit    = &fnType{k: "unit"}
 )
 
-func (t *fnType) isNum() bool { return t.k == "int" || t.k == "byte" || t.k == "untyped" }
+func (t *fnType) isNum() bool {
+	return t.k == "int" || t.k == "byte" || t.k == "untyped" || t.k == "u64"
+}
 
 func (t *fnType) coq() string {
 	switch t.k {
-	case "int", "byte", "untyped":
+	case "int", "byte", "untyped", "u64":
 		return "Z"
 	case "bool":
 		return "bool"
@@ -513,8 +516,10 @@ func (c *fnCtx) goType(e ast.Expr) *fnType {
 	switch v := e.(type) {
 	case *ast.Ident:
 		switch v.Name {
-		case "int", "int64", "uint", "uint64", "int32", "uint32":
+		case "int", "int64", "uint", "int32", "uint32":
 			return tyInt
+		case "uint64":
+			return tyU64 // + - * << and conversions wrap modulo 2^64 (go_u64)
 		case "bool":
 			return tyBool
 		case "byte", "uint8":
@@ -558,12 +563,12 @@ func (c *fnCtx) goType(e ast.Expr) *fnType {
 	case *ast.MapType:
 		kt, vt := c.goType(v.Key), c.goType(v.Value)
 		switch kt.k {
-		case "int", "byte", "bool", "string", "elem":
+		case "int", "byte", "bool", "string", "elem", "u64":
 		default:
 			c.lostAt(e, "map key type %s", src(v.Key))
 		}
 		switch vt.k {
-		case "int", "byte", "bool", "string", "elem", "struct", "unit":
+		case "int", "byte", "bool", "string", "elem", "struct", "unit", "u64":
 		default:
 			c.lostAt(e, "map value type %s (aliasing)", src(v.Value))
 		}
